@@ -20,6 +20,9 @@ pub struct GenCfg {
     pub fails: bool,
     pub whiles: bool,
     pub strings: bool,
+    /// user identifiers drawn from pools of Go keywords, predeclared names, runtime helper
+    /// and compiler-temporary look-alikes (C19)
+    pub hostile_names: bool,
     /// bias towards closures (C08), generics (C07), effects (C09)
     pub focus: Focus,
 }
@@ -47,6 +50,7 @@ impl GenCfg {
             fails: true,
             whiles: true,
             strings: true,
+            hostile_names: false,
             focus: Focus::None,
         }
     }
@@ -72,6 +76,31 @@ impl Gates for NoGates {
 
 const LOCAL_NAMES: [&str; 6] = ["a", "b", "c", "x", "y", "z"];
 const STRS: [&str; 8] = ["", "a", "go", "ml", "x y", "Zz", "0", "héé"];
+
+/// (name, gate) — gate = shape label closed by an open known finding
+const HOSTILE_FNS: [(&str, &str); 40] = [
+    ("len", ""), ("append", ""), ("panic", ""), ("println", ""), ("print", ""), ("nil", ""), ("any", ""),
+    ("fmt", ""), ("cap", ""), ("copy", ""), ("new", ""), ("make", ""), ("error", ""), ("int", ""),
+    ("byte", ""), ("rune", ""), ("iota", ""), ("var", ""), ("func", ""), ("chan", ""), ("map", ""),
+    ("range", ""), ("select", ""), ("defer", ""), ("switch", ""), ("case", ""), ("default", ""),
+    ("interface", ""), ("const", ""), ("goto", ""), ("init", "names:go-init"),
+    ("t3", "names:temp-like"), ("t1", "names:temp-like"), ("ret2", "names:temp-like"), ("x0", "names:temp-like"),
+    ("mtmp1", "names:temp-like"), ("cond1", "names:temp-like"),
+    ("main0", "names:runtime-helper"), ("missing", "names:runtime-helper"),
+    ("a_b__c", ""),
+];
+const HOSTILE_TYPES: [(&str, &str); 13] = [
+    ("error", ""), ("any", ""), ("len", ""), ("Len", ""), ("A_B", ""), ("B_C", ""), ("a", ""), ("A", ""),
+    ("Tuple2_int32_int32", "names:generated-type"), ("ref_int32_x", "names:generated-type"),
+    ("closure_env_f_0", "names:generated-type"), ("Tuple2_bool_bool", "names:generated-type"),
+    ("dyn__Show", ""),
+];
+const HOSTILE_FIELDS: [&str; 14] = [
+    "func", "range", "var", "chan", "map", "select", "defer", "switch", "value", "len", "x_0", "interface", "goto", "nil",
+];
+const HOSTILE_LOCALS: [&str; 16] = [
+    "len", "nil", "t1", "ret0", "mtmp0", "x", "func", "var", "range", "chan", "a__1", "string2", "append", "fmt", "cond0", "any",
+];
 
 struct ScopeVar {
     id: VarId,
@@ -100,6 +129,10 @@ pub struct Gen<'a, 'd> {
     esc_ok: bool,
     /// spellings bound so far inside the pattern under construction
     pat_names: Vec<String>,
+    used_names: HashSet<String>,
+    user_fns: Vec<usize>,
+    /// enum-typed variables that are the scrutinee of an enclosing match
+    active_scrutinees: Vec<VarId>,
 }
 
 fn is_printable_ty(t: &Ty) -> bool {
@@ -128,11 +161,31 @@ impl<'a, 'd> Gen<'a, 'd> {
             counters: HashSet::new(),
             esc_ok,
             pat_names: vec![],
+            used_names: HashSet::new(),
+            user_fns: vec![],
+            active_scrutinees: vec![],
         }
     }
 
     fn label(&mut self, l: &str) {
         self.p.labels.insert(l.to_string());
+    }
+
+    /// an item name: in hostile mode from the pool (unique, gates respected), else `default`
+    fn item_name(&mut self, pool: &[(&str, &str)], default: String) -> String {
+        if self.cfg.hostile_names && self.d.chance(200) {
+            let (n, gate) = pool[self.d.below(pool.len())];
+            if !self.used_names.contains(n) && (gate.is_empty() || !self.gates.gated(gate)) {
+                self.used_names.insert(n.to_string());
+                self.label("names:hostile-item");
+                if !gate.is_empty() {
+                    self.label(gate);
+                }
+                return n.to_string();
+            }
+        }
+        self.used_names.insert(default.clone());
+        default
     }
 
     // ------------------------------------------------------------ variables
@@ -154,7 +207,12 @@ impl<'a, 'd> Gen<'a, 'd> {
     fn new_var(&mut self, ty: Ty, known: bool) -> VarId {
         let spelling = if self.cfg.shadow {
             let n = if self.cfg.focus == Focus::Scopes { 3 } else { LOCAL_NAMES.len() };
-            LOCAL_NAMES[self.d.below(n)].to_string()
+            if self.cfg.hostile_names && self.d.chance(128) {
+                self.label("names:hostile-local");
+                HOSTILE_LOCALS[self.d.below(HOSTILE_LOCALS.len())].to_string()
+            } else {
+                LOCAL_NAMES[self.d.below(n)].to_string()
+            }
         } else {
             self.uniq += 1;
             format!("v{}", self.uniq)
@@ -172,7 +230,7 @@ impl<'a, 'd> Gen<'a, 'd> {
         id
     }
 
-    fn fresh_named(&mut self, prefix: &str, ty: Ty) -> VarId {
+    pub fn fresh_named(&mut self, prefix: &str, ty: Ty) -> VarId {
         self.uniq += 1;
         let s = format!("{}{}", prefix, self.uniq);
         self.new_var_named(s, ty, true)
@@ -278,8 +336,9 @@ impl<'a, 'd> Gen<'a, 'd> {
                         vs[0].1.push(Ty::Param(k as u32));
                     }
                 }
+                let adt_name = self.item_name(&HOSTILE_TYPES, format!("E{}", i));
                 self.p.adts.push(AdtDef {
-                    name: format!("E{}", i),
+                    name: adt_name,
                     tparams,
                     kind: AdtKind::Enum(vs),
                 });
@@ -288,15 +347,22 @@ impl<'a, 'd> Gen<'a, 'd> {
                 let nf = 1 + self.d.below(3);
                 let mut fs = vec![];
                 for f in 0..nf {
-                    fs.push((format!("f{}", f), field_ty(self, &mut used)));
+                    let fname = if self.cfg.hostile_names && self.d.chance(160) {
+                        let n = HOSTILE_FIELDS[self.d.below(HOSTILE_FIELDS.len())];
+                        if fs.iter().any(|(x, _): &(String, Ty)| x == n) { format!("f{}", f) } else { self.label("names:hostile-field"); n.to_string() }
+                    } else {
+                        format!("f{}", f)
+                    };
+                    fs.push((fname, field_ty(self, &mut used)));
                 }
                 for (k, u) in used.iter().enumerate() {
                     if !u {
                         fs.push((format!("g{}", k), Ty::Param(k as u32)));
                     }
                 }
+                let adt_name = self.item_name(&HOSTILE_TYPES, format!("S{}", i));
                 self.p.adts.push(AdtDef {
-                    name: format!("S{}", i),
+                    name: adt_name,
                     tparams,
                     kind: AdtKind::Struct(fs),
                 });
@@ -503,7 +569,7 @@ impl<'a, 'd> Gen<'a, 'd> {
         id
     }
 
-    fn tick(&mut self, t: &Ty, inner: Expr) -> Expr {
+    pub fn tick(&mut self, t: &Ty, inner: Expr) -> Expr {
         self.tick_no += 1;
         self.label("tick");
         let f = self.tick_fn(t);
@@ -512,7 +578,7 @@ impl<'a, 'd> Gen<'a, 'd> {
 
     // ---------------------------------------------------------------- show
 
-    fn concat(parts: Vec<Expr>) -> Expr {
+    pub fn concat(parts: Vec<Expr>) -> Expr {
         let mut it = parts.into_iter();
         let mut acc = it.next().unwrap_or(Expr::Str(String::new()));
         for p in it {
@@ -1233,7 +1299,27 @@ impl<'a, 'd> Gen<'a, 'd> {
     fn match_expr(&mut self, t: &Ty, fuel: i32) -> Expr {
         self.label("match");
         let st = self.scrutinee_ty();
-        let s = self.expr(&st, fuel - 1);
+        let mut s = self.expr(&st, fuel - 1);
+        if let Expr::Var(v) = &s {
+            if self.active_scrutinees.contains(v) {
+                // `match z { K => match z { .. } }`: the Go type switch rebinds z (KF-32)
+                if self.gates.gated("match:nested-same-scrutinee") {
+                    s = self.const_leaf(&st);
+                } else {
+                    self.label("match:nested-same-scrutinee");
+                }
+            }
+        }
+        let pushed = if let (Expr::Var(v), Ty::Adt(a, _)) = (&s, &st) {
+            if matches!(self.p.adts[*a].kind, AdtKind::Enum(_)) {
+                self.active_scrutinees.push(*v);
+                true
+            } else {
+                false
+            }
+        } else {
+            false
+        };
         let n = 1 + self.d.below(3);
         let mut arms = vec![];
         for _ in 0..n {
@@ -1258,6 +1344,9 @@ impl<'a, 'd> Gen<'a, 'd> {
             let b = self.branch(t, fuel - 1);
             self.scope.truncate(saved);
             arms.push((p, b));
+        }
+        if pushed {
+            self.active_scrutinees.pop();
         }
         match &st {
             Ty::Adt(..) => self.label("match:adt"),
@@ -1330,7 +1419,7 @@ impl<'a, 'd> Gen<'a, 'd> {
             .callable
             .iter()
             .copied()
-            .filter(|f| self.p.fns[*f].name.starts_with('f'))
+            .filter(|f| self.user_fns.contains(f))
             .collect();
         if cands.is_empty() {
             return None;
@@ -1546,7 +1635,7 @@ impl<'a, 'd> Gen<'a, 'd> {
         let body = self.block(&ret, 3);
         self.scope.clear();
         self.p.fns[idx] = FnDef {
-            name: format!("f{}", idx),
+            name: self.item_name(&HOSTILE_FNS, format!("f{}", idx)),
             tparams,
             params,
             ret,
@@ -1601,6 +1690,7 @@ impl<'a, 'd> Gen<'a, 'd> {
             });
             self.gen_fn(idx);
             self.callable.push(idx);
+            self.user_fns.push(idx);
         }
         let idx = self.p.fns.len();
         self.p.fns.push(FnDef {
